@@ -222,6 +222,30 @@ pub fn run(ctx: &Ctx) -> Outcome {
             }
         }
     }
+    // uniquifier chains: a helper name together with its uniquified forms (State + State2, State + State2 + State3)
+    // in two or three roles at once - the smallest inputs on which a renaming scheme can collide with itself
+    let helpers = ["State", "Node", "Action", "RuleKind", "Eof", "Quasiterminal", "QuasiterminalKind", "NonterminalKind", "S", "ACTION_TABLE", "GOTO_TABLE", "Error", "Terminal"];
+    for ci in 0..3 {
+        let upper_roles: Vec<String> = roles(&cs[ci]).into_iter().filter(|r| r.1 == RoleKind::Upper).map(|r| r.0).collect();
+        for h in helpers {
+            for (a, b) in [(0usize, 1usize), (1, 0), (0, upper_roles.len() - 1), (2, 3)] {
+                if a < upper_roles.len() && b < upper_roles.len() && a != b {
+                    try_case(ci, vec![(upper_roles[a].clone(), h.to_string()), (upper_roles[b].clone(), format!("{h}2"))], &mut cases, &mut skipped_not_ok);
+                    if let Some(c) = (0..upper_roles.len()).find(|c| *c != a && *c != b) {
+                        try_case(ci, vec![(upper_roles[a].clone(), h.to_string()), (upper_roles[b].clone(), format!("{h}2")), (upper_roles[c].clone(), format!("{h}3"))], &mut cases, &mut skipped_not_ok);
+                        try_case(ci, vec![(upper_roles[a].clone(), format!("{h}2")), (upper_roles[c].clone(), format!("{h}3"))], &mut cases, &mut skipped_not_ok);
+                    }
+                }
+            }
+        }
+        // lower-case: field names equal to the generator's local variable names with index suffixes
+        let field_roles: Vec<String> = roles(&cs[ci]).into_iter().filter(|r| r.1 == RoleKind::Field).map(|r| r.0).collect();
+        if field_roles.len() >= 2 {
+            for (x, y) in [("nodes", "states"), ("t0", "t1"), ("node", "src"), ("f0", "f0_0"), ("x", "x_0"), ("new_node", "new_node_kind")] {
+                try_case(ci, vec![(field_roles[0].clone(), x.to_string()), (field_roles[1].clone(), y.to_string())], &mut cases, &mut skipped_not_ok);
+            }
+        }
+    }
     let deviation1 = cases.len();
     if ctx.tier == Tier::Thorough {
         // deviation 2: every pair of assignments over the curated pools, on the three main carriers
@@ -260,7 +284,7 @@ pub fn run(ctx: &Ctx) -> Outcome {
     out.cov("scopes", json!({
         "carriers": cs.iter().map(|c| c.name).collect::<Vec<_>>(),
         "conventional_namings": conventional,
-        "deviation_1_modules": deviation1,
+        "deviation_1_modules_and_uniquifier_chains": deviation1,
         "deviation_2_modules": cases.len() - deviation1,
         "pool_upper_case": upper1.len(), "pool_lower_case": lower1.len(),
         "mechanical_pool_upper": mech_upper.len(), "mechanical_pool_lower": mech_lower.len(),
